@@ -113,9 +113,10 @@ void report(uintptr_t addr, const Acc &prev, bool prev_w, int t, uintptr_t pc, b
     if (g_reports.size() < 400) g_reports.push_back({addr, prev.pc, pc, prev.tid, t, prev_w, cur_w, prev.ctx, ctx});
 }
 
-void access(uintptr_t addr, size_t size, bool is_write, uintptr_t pc, bool atomic = false) {
+void access(uintptr_t addr, size_t size, bool is_write, uintptr_t pc, bool atomic = false, bool from_free = false) {
     if (!live() || tl_busy) return;
-    if (g_access_yield_p && !atomic) {
+    // never from free(): the scheduler itself frees memory in the middle of its own operations
+    if (g_access_yield_p && !atomic && !from_free) {
         g_access_rng ^= g_access_rng << 13;
         g_access_rng ^= g_access_rng >> 7;
         g_access_rng ^= g_access_rng << 17;
@@ -394,7 +395,7 @@ void free(void *p) {
         // handing memory back is a write to all of it (the deallocating code in libstdc++ is not instrumented:
         // the site reported is the last instrumented address this thread passed)
         size_t n = malloc_usable_size(p);
-        if (rd::tl_last_pc) rd::access((uintptr_t) p, n > 4096 ? 4096 : n, true, rd::tl_last_pc);
+        if (rd::tl_last_pc) rd::access((uintptr_t) p, n > 4096 ? 4096 : n, true, rd::tl_last_pc, false, true);
         rd::clear_range((uintptr_t) p, n);
     }
     __libc_free(p);
